@@ -175,6 +175,8 @@ class SimFS:
 
     # ------------------------------------------------- operations (seam steps)
     def stat(self, path, **kw):
+        if kw.get('follow_symlinks') is False:
+            return self.lstat(path)
         d = self._seam('stat', path)
         r = self._stat_result(self.lookup(path))
         if d and d.after:
